@@ -22,6 +22,15 @@ CLAIMED = {
  "C05": ("seq", "exploration",
          "Seeded deterministic simulation of build/exit interleavings (PRNG picks which open entry exits) under isolation and hotspot-concurrency rules; each decision compared with reference in-flight counts per resource and per (rule, parameter value); block type and named rule checked.",
          "DESIGN.md §4 C05", "deterministic simulation: seeded build/exit interleavings vs reference in-flight model", SEQ_NOTE),
+ "C03": ("seq", "exploration",
+         "Seeded deterministic simulation of enter/complete/advance histories (completions ok|error, fast|slow through the virtual clock, arrivals on and around the retry time) on 1-2 breakers plus an optional flow rule that rejects a probe elsewhere; build() result, current_state() of every breaker and the full listener log are compared with a reference state machine after every operation.",
+         "DESIGN.md §4 C03 / appendix A.2", "deterministic simulation: virtual clock + seeded event histories vs reference state machine", SEQ_NOTE),
+ "C06": ("seq", "exploration",
+         "Seeded deterministic simulation of arrival histories (gaps 0 .. several durations incl. exactly d and d+1 ms) against hotspot QPS/reject rules; stated upper bound per value, rejection only when a conservative reference bucket is insufficient, per-value overrides, and a differential second execution projected onto one value (no cross-talk).",
+         "DESIGN.md §4 C06 / appendix A.3", "deterministic simulation: virtual clock + seeded arrivals vs reference token bucket and differential re-execution", SEQ_NOTE),
+ "C07": ("seq", "exploration",
+         "Seeded deterministic simulation with a ns-resolution virtual clock and virtual sleep: arrivals in bursts and on the scheduled slot +-1 ns/ms against flow and hotspot throttling rules, observed through perform_checking (queues build up) and through build() (the clock must really have moved to the scheduled time).",
+         "DESIGN.md §4 C07 / appendix A.4", "deterministic simulation: virtual clock and virtual sleep + seeded arrivals vs reference pacing model", SEQ_NOTE),
 }
 
 PENDING_REASON = "check not built yet in this round (design in DESIGN.md §4); not claimed until it runs"
